@@ -448,3 +448,17 @@ Definition import_tree (d : dir) : Prop :=
   (forall f m, imp_target d f m <> Some 0%nat) /\
   (forall f1 m1 f2 m2 g, imp_target d f1 m1 = Some g -> imp_target d f2 m2 = Some g ->
                          f1 = f2 /\ m1 = m2).
+
+(* ---- boolean checkers for the hypotheses of the theorems -------------------- *)
+
+Definition len1 (n : name) : bool := match n with [_] => true | _ => false end.
+
+Definition no_dotted_check (d : dir) : bool :=
+  forallb (fun F => forallb (fun pr => len1 (fst pr)) (f_prods F)
+                    && forallb (fun t => len1 (fst t)) (f_terms F)) d.
+
+Definition imports_consistent_check (d : dir) : bool :=
+  forallb (fun F => forallb (fun mt => match find_import F (fst mt) with
+                                       | Some (_, t) => Nat.eqb t (snd mt)
+                                       | None => false
+                                       end) (f_imports F)) d.
